@@ -45,8 +45,8 @@ theorem inv_step_astype {X Y : Obj K} (hX : Inv r X) (h : X.step r .astype = .ok
 
 /-- `apply`: C03's equivariance; for segments and tangent vectors the matrix must preserve the
 Minkowski form (`OpOk`), for polygons any square matrix will do -/
-theorem inv_step_apply {X Y : Obj K} {A : ND K} (hX : Inv r X) (hA : OpOk r X.kind (.apply A))
-    (h : X.step r (.apply A) = .ok Y) : Inv r Y := GT.Act.inv_step_apply r hX hA h
+theorem inv_step_apply {X Y : Obj K} {A AinvT : ND K} (hX : Inv r X) (hA : OpOk r X.kind (.apply A AinvT))
+    (h : X.step r (.apply A AinvT) = .ok Y) : Inv r Y := GT.Act.inv_step_apply r hX hA h
 
 theorem inv_step_reshape {X Y : Obj K} {s : List ℕ} (hX : Inv r X)
     (h : X.step r (.reshape s) = .ok Y) : Inv r Y := GT.Act.inv_step_reshape r hX h
